@@ -127,6 +127,9 @@ def generate(run_seed, tier):
             texts["t%d" % t] = "".join(wl.choice(pool) for _ in range(wl.randint(1, 14)))
         else:
             texts["t%d" % t] = corpus.make_text(wl, names, max_words=9)
+    for tid in sorted(texts):
+        if texts[tid].swapcase() != texts[tid] and wl.random() < 0.3:
+            texts[tid + "s"] = texts[tid].swapcase()       # other-case spelling: flags must be the same on both paths
     tids = sorted(texts)
     enabled = wl.sample(MATCH_OPS, wl.randint(2, len(MATCH_OPS)))
     iter_rate = wl.choice([0.0, 0.25, 0.5])
